@@ -489,12 +489,54 @@ def _fit_cfgs(case):
     return case
 
 
-def gen_uc(rng):
+# numbers of stored values at which a fast path / block-wise evaluation / packed key could switch on: powers of two
+# and round numbers, one below, at and one above
+COUNTS = [1023, 1025, 2049, 4095, 4096, 4097, 8193, 9999, 10001, 16383, 16385, 20000, 20001, 32767, 32769, 50001,
+          65535, 65536, 65537, 100001, 131073]
+NATOMS_A = [20001, 20480, 21000, 21846, 32769]          # (21846 atoms: 65538 coordinates)
+NATOMS_B = [65537, 66000, 70000]
+
+
+def _count_shape(rng, count):
+    """a shape with about `count` elements (never fewer): a long vector, (n, 3) / (n, 2) / (3, n) / (n, 3, 3) /
+    (n, 1) arrays."""
+    k = rng.choice([0, 0, 0, 1, 2, 3, 4, 5])
+    if k == 0:
+        return [count]
+    if k == 1:
+        return [-(-count // 3), 3]
+    if k == 2:
+        return [-(-count // 2), 2]
+    if k == 3:
+        return [3, -(-count // 3)]
+    if k == 4:
+        return [-(-count // 9), 3, 3]
+    return [count, 1]
+
+
+def gen_uc(rng, count=None):
     rank = rng.choice([0, 0, 1, 1, 2, 2, 3, 4])
     shape = [rng.choice([1, 2, 3, 4]) for _ in range(rank)]
     via = rng.choice(['tree', 'json', 'xml'])
     scale = rng.choice(SCALES)
-    arr = _gen_arr(rng, shape, trailing=[], dt=rng.choice('fffffiisb'), via=via, scale=scale)
+    if count is not None:
+        # a LONG value: dtype class and every element must come back whatever the number of stored values
+        shape = _count_shape(rng, count)
+        arr = _gen_arr(rng, shape, trailing=[], dt=rng.choice('fiiiibbs'), via=via, scale=scale)
+        if arr['form'] == 'narrow':
+            arr['form'] = 'c'
+        if arr['dt'] == 'i' and arr.get('flavour') is None and rng.random() < 0.5:
+            # identifiers: 1 .. n, or 64-bit tags beyond 2^53 (the extremes of int64 at the ends and in the middle)
+            n = len(arr['data'])
+            if rng.random() < 0.5:
+                arr['data'] = list(range(1, n + 1))
+            else:
+                arr['flavour'] = 'big'
+                arr['data'] = [(1 << 60) + i for i in range(n)]
+                for at, v in zip((0, n // 2, n - 1), rng.sample(BIG_INTS, 3)):
+                    arr['data'][at] = v
+    else:
+        arr = _gen_arr(rng, shape, trailing=[], dt=rng.choice('fffffiisb'), via=via, scale=scale)
     unit = _pick_unit(rng, arr, allow_scaled=False)
     if unit is not None and (abs(scale) > 100 or (arr['form'] == 'narrow' and arr['dt'] == 'f')):
         # keep value / factor inside the double range; float32 input divided by a unit factor is float32 arithmetic
@@ -528,9 +570,41 @@ NAMES = ['charge', 'tag', 'n', 'stress', 'vel', 'disp', 'label', 'T', 'spin']
 # non-ASCII letter ('natoms', 'model', 'prop', 'view' are attributes / constructor arguments of Atoms: not property names)
 NAMES_ODD = ['p', 'os', 'po', 's', 'a', 'typ', 'x y', 'é', 'shape', 'unit', 'value', 'box', 'atoms', 'name', 'data',
              'property', 'scaled', 'avect', 'origin', 'atom-type-symbol', 'natom', 'error', 'atomic-system']
+# names that the classes themselves use: methods, read-only attributes and constructor arguments of Atoms, methods and
+# attributes of System, private / special attribute names.  A per-atom property may carry any of them (the property
+# table is a dictionary: atoms.view[name] = values); what is read back must hold it in the table and must still be a
+# working object (the method / attribute of that name is the class's, not the column).  None of them can be handed
+# to Atoms(**kwargs) safely (constructor arguments, or C06's subject): they are created through atoms.view[name].
+NAMES_CLASS = ['df', 'extend', 'prop_atype', 'model', 'prop', 'natoms', 'natypes', 'atypes', 'view', 'safecopy', 'kwargs',
+               'self', 'box', 'pbc', 'symbols', 'masses', 'composition', 'dump', 'wrap', 'scale', 'unscale', 'dvect', 'dmag',
+               'r0', 'rotate', 'supersize', 'normalize', 'neighborlist', 'box_set', 'atoms_prop', 'atoms_df', 'atoms_ix',
+               'atoms_extend', 'load', '_Atoms__view', '_Atoms__natoms', '_Atoms__dir', '__dict__', '__class__', '__len__',
+               '__getitem__', '__init__', '__doc__', 'PropertyDict', 'keys', 'values', 'items', 'copy', 'shape', 'dtype']
 
 
-def _gen_props(rng, natoms, ntypes, via='tree', scale=0, box=None):
+def _big_columns(rng, natoms):
+    """the columns large atomistic systems carry: running identifiers, 64-bit tags beyond 2^53, integer image flags
+    (n, 3), boolean masks, integer counts - stored without a unit, so dtype class and every value come back."""
+    cols = []
+    ids = list(range(1, natoms + 1))
+    if rng.random() < 0.5:
+        rng.shuffle(ids)
+    cols.append({'name': 'atom_id', 'unit': None, 'dt': 'i', 'shape': [natoms], 'data': ids, 'form': rng.choice(['c', 'list', 'readonly'])})
+    tag = [(1 << 60) + 7 * i for i in range(natoms)]
+    for at, v in zip((0, natoms // 2, natoms - 1), rng.sample(BIG_INTS, 3)):
+        tag[at] = v
+    cols.append({'name': 'tag', 'unit': None, 'dt': 'i', 'shape': [natoms], 'data': tag, 'form': 'c', 'flavour': 'big'})
+    cols.append({'name': 'image', 'unit': None, 'dt': 'i', 'shape': [natoms, 3],
+                 'data': [rng.randint(-2, 2) for _ in range(3 * natoms)], 'form': rng.choice(['c', 'fortran', 'strided', 'narrow'])})
+    cols.append({'name': 'fixed', 'unit': None, 'dt': 'b', 'shape': [natoms],
+                 'data': [rng.random() < 0.5 for _ in range(natoms)], 'form': rng.choice(['c', 'list'])})
+    cols.append({'name': 'nbonds', 'unit': None, 'dt': 'i', 'shape': [natoms, 1],
+                 'data': [rng.randint(0, 12) for _ in range(natoms)], 'form': 'c'})
+    rng.shuffle(cols)
+    return cols[:rng.randint(2, 5)]
+
+
+def _gen_props(rng, natoms, ntypes, via='tree', scale=0, box=None, big=False):
     atype = [rng.randint(1, ntypes) for _ in range(natoms)]
     atype[rng.randrange(natoms)] = ntypes
     pos = _gen_arr(rng, [natoms], dt='f' if rng.random() < 0.9 else 'i', trailing=[3], via=via, scale=scale)
@@ -558,15 +632,30 @@ def _gen_props(rng, natoms, ntypes, via='tree', scale=0, box=None):
              dict(pos, name='pos', unit=rng.choice(lu if abs(scale) <= 100 else lu[:3]))]
     names = list(NAMES)
     rng.shuffle(names)
-    names = names[:rng.randint(0, 4)]
+    names = names[:rng.randint(0, 2 if big else 4)]
     if rng.random() < 0.3:
         names.insert(rng.randint(0, len(names)), rng.choice(NAMES_ODD))
-    for name in names:
-        arr = _gen_arr(rng, [natoms], via=via, scale=scale)
-        unit = _pick_unit(rng, arr)
+    # (dimensions added in later rounds draw from a generator derived from the case so far: the main stream, and with
+    # it every case of the earlier rounds, stays what it was)
+    rx = random.Random('c10-names %r %r' % (names, atype[:8]))
+    extra = []
+    if rx.random() < 0.3:
+        extra = [nm for nm in rx.sample(NAMES_CLASS, rx.choice([1, 1, 2, 3])) if nm not in names]
+    for name in names + extra:
+        g = rng if name in names else rx
+        arr = _gen_arr(g, [natoms], via=via, scale=scale)
+        unit = _pick_unit(g, arr)
         if unit not in (None, 'scaled') and (abs(scale) > 100 or (arr['form'] == 'narrow' and arr['dt'] == 'f')):
             unit = None
         props.append(dict(arr, name=name, unit=unit))
+    if big:
+        for c in _big_columns(rng, natoms):
+            props.insert(rng.randint(2, len(props)), c)
+    if extra and rx.random() < 0.6:
+        # anywhere in the table, not only at its end
+        tail = props[2:]
+        rx.shuffle(tail)
+        props[2:] = tail
     return props
 
 
@@ -641,12 +730,13 @@ def _gen_call(rng, props, sel):
     return call
 
 
-def gen_atoms(rng):
-    natoms = rng.randint(1, 6)
+def gen_atoms(rng, natoms=None):
+    big = natoms is not None
+    natoms = natoms or rng.randint(1, 6)
     ntypes = rng.randint(1, 3)
     w1, w2 = _gen_cfgs(rng)
     via = rng.choice(['tree', 'json', 'xml'])
-    props = _gen_props(rng, natoms, ntypes, via)
+    props = _gen_props(rng, natoms, ntypes, via, big=big)
     for p in props:
         if p['unit'] == 'scaled' and rng.random() < 0.5 and not (p['form'] == 'narrow' and p['dt'] == 'f'):
             p['unit'] = 'nm'        # Atoms.model alone treats 'scaled' as factor 1
@@ -668,14 +758,15 @@ def gen_atoms(rng):
 SYMBOLS = ['Al', 'Cu', 'Fe', 'Ni-1', None, None, 'α-Fe', 'Al 1']
 
 
-def gen_sys(rng):
-    natoms = rng.randint(1, 7)
+def gen_sys(rng, natoms=None):
+    big = natoms is not None
+    natoms = natoms or rng.randint(1, 7)
     ntypes = rng.randint(1, 3)
     w1, w2 = _gen_cfgs(rng)
     via = rng.choice(['tree', 'json', 'xml'])
     scale = rng.choice(SCALES)
     box = _gen_box(rng, scale)
-    props = _gen_props(rng, natoms, ntypes, via, scale, box)
+    props = _gen_props(rng, natoms, ntypes, via, scale, box, big=big)
     nsym = rng.choice([0, ntypes, ntypes, ntypes, ntypes + 1, max(0, ntypes - 1)])
     symbols = [rng.choice(SYMBOLS) for _ in range(nsym)]
     natS = max(nsym, ntypes)
@@ -953,11 +1044,37 @@ def _mk_box(b):
 
 
 def _mk_atoms(case):
+    """the Atoms object of a case.  Ordinary names go to the constructor as keywords (or, for a case marked
+    create = 'view', into the property table one by one); names the classes use themselves (NAMES_CLASS) always go
+    through atoms.view[name] = values, in the order of the case."""
     import atomman as am
-    kw = {}
+    kw, later = {}, []
+    by_view = case.get('create') == 'view'
     for p in case['props']:
-        kw[p['name']] = _nparr(p)
-    return am.Atoms(**kw)
+        if p['name'] in ('atype', 'pos') or not (later or by_view or p['name'] in NAMES_CLASS):
+            kw[p['name']] = _nparr(p)
+        else:
+            later.append(p)         # (and everything after it: the order of the table is the order of the case)
+    a = am.Atoms(**kw)
+    for p in later:
+        a.view[p['name']] = _nparr(p)
+    return a
+
+
+def _pnames(a):
+    """names of the property table of an Atoms object, in order (= atoms.prop(); read from the table itself so that
+    an object whose `prop` method was overwritten can still be described)."""
+    return list(a.view.keys())
+
+
+def _shadowed(a):
+    """attributes of the class (methods, properties) that the instance hides behind an instance attribute: a working
+    Atoms object has none."""
+    try:
+        inst = vars(a)
+    except TypeError:
+        return ['__dict__']
+    return sorted(k for k in inst if hasattr(type(a), k))
 
 
 def _mass_in(m, form):
@@ -1267,7 +1384,7 @@ def _snap_box(b):
 
 
 def _snap_atoms(a):
-    return (a.natoms, tuple((k, _bits(a.view[k])) for k in a.prop()))
+    return (a.natoms, tuple((k, _bits(a.view[k])) for k in _pnames(a)))
 
 
 def _snap_sys(s):
@@ -1298,7 +1415,7 @@ def _scribble_tree(t):
 
 def _scribble_sys(s):
     """use a System that was read as a caller would: move atoms, change the cell (in place where possible)."""
-    for k in s.atoms.prop():
+    for k in _pnames(s.atoms):
         a = s.atoms.view[k]
         if a.flags.writeable and a.dtype.kind in 'fiu' and k != 'atype':
             a[...] = 99
@@ -1311,7 +1428,7 @@ def _scribble_sys(s):
 
 
 def _scribble_atoms(a):
-    for k in a.prop():
+    for k in _pnames(a):
         v = a.view[k]
         if v.flags.writeable and v.dtype.kind in 'fiu' and k != 'atype':
             v[...] = 99
@@ -2114,7 +2231,7 @@ def same_atoms(real, model, tol, loose_names, loose, path, out):
     m = dict(model)
     if real.natoms != m['natoms']:
         out.append(f"{path}: natoms {real.natoms} != model {m['natoms']}")
-    names = real.prop()
+    names = _pnames(real)
     mnames = [unwire(p[0]) for p in m['props']]
     if names != mnames:
         out.append(f'{path}: properties {names} != model {mnames}')
@@ -2371,9 +2488,63 @@ def _cases(rng, n):
             yield _fit_cfgs(g(rng))
 
 
+def gen_big(rng, of, n):
+    """a LARGE case in compact form (what a replay file stores): the kind of object, the number of atoms / of stored
+    values and the seed its content is generated from."""
+    return {'kind': 'big', 'of': of, 'n': n, 'seed': rng.randrange(2 ** 31)}
+
+
+def expand_big(spec):
+    """the ordinary case a compact large case stands for."""
+    rng = random.Random(spec['seed'])
+    if spec['of'] == 'uc':
+        case = gen_uc(rng, count=spec['n'])
+    elif spec['of'] == 'atoms':
+        case = gen_atoms(rng, natoms=spec['n'])
+    else:
+        case = gen_sys(rng, natoms=spec['n'])
+        if case['via'] == 'xml' and spec['n'] > 40000:
+            # xmltodict needs a second per 100 000 numbers and pass: one dump, no second generation, no surrounding
+            # record, at most 8 numbers per atom
+            case['record'] = None
+            case.pop('again', None)
+            case['io'] = 'stringio' if case['io'] == 'str' else case['io']
+            width, keep = 0, []
+            for q in case['props']:
+                w = 1
+                for x in q['shape'][1:]:
+                    w *= x
+                if q['name'] in ('atype', 'pos') or width + w <= 4:
+                    keep.append(q)
+                    width += w if q['name'] not in ('atype', 'pos') else 0
+            names = [q['name'] for q in keep]
+            case['props'] = keep
+            if case.get('sel') is not None:
+                case['sel'] = [e for e in case['sel'] if e['name'] in names]
+    case['compact'] = dict(spec)
+    return _fit_cfgs(case)
+
+
+def _full(case):
+    return expand_big(case) if case.get('kind') == 'big' else case
+
+
+def _big_cases(rng, thorough, tie=False):
+    """the large cases of one run: long values around the COUNTS, one system of about 21 000 atoms and (search
+    only, not in the tie) one of about 70 000; more of each in the thorough tier."""
+    k = 3 if thorough else 1
+    out = [gen_big(rng, 'uc', c) for c in rng.sample(COUNTS, (3 if tie else 5) * k)]
+    out += [gen_big(rng, rng.choice(['sys', 'sys', 'atoms']), rng.choice(NATOMS_A)) for _ in range(k)]
+    if not tie or thorough:
+        out += [gen_big(rng, 'sys', rng.choice(NATOMS_B)) for _ in range(k)]
+    return out
+
+
 def _root(case):
-    """the generated case a (second-generation) case belongs to: what a replay file stores."""
-    return case.get('second_of', case)
+    """the generated case a (second-generation) case belongs to: what a replay file stores (a large case in its
+    compact form)."""
+    case = case.get('second_of', case)
+    return case.get('compact', case)
 
 
 def _classes(case, cover):
@@ -2390,6 +2561,14 @@ def _classes(case, cover):
             hit('array form: ' + a['form'])
         if a.get('name') in NAMES_ODD:
             hit('property name: reserved / short / non-ASCII')
+        if a.get('name') in NAMES_CLASS:
+            hit('property name: method / attribute of Atoms or System')
+    if 'compact' in case:
+        n = case['compact']['n']
+        if case['kind'] == 'uc':
+            hit('size: long value of %d+ stored numbers' % (1 << (n.bit_length() - 1)))
+        else:
+            hit('size: %s of about %s atoms' % (case['kind'], '21 000' if n in NATOMS_A else '70 000'))
     if case.get('natoms') == 1 and any(len(a['shape']) >= 2 for a in arrs):
         hit('natoms = 1 with vector / tensor properties')
     if case.get('scale'):
@@ -2486,7 +2665,7 @@ def correspond(ctx):
     classes = {}
     outside = 0
     try:
-        for case in _cases(rng, N):
+        for case in list(_cases(rng, N)) + [expand_big(b) for b in _big_cases(random.Random(ctx.seed * 104729 + 3), ctx.thorough, tie=True)]:
             if case['kind'] == 'refuse':
                 continue
             r = run_real(case)
@@ -2524,11 +2703,14 @@ def correspond(ctx):
             cover[key] = cover.get(key, 0) + 1
         if case['w1'] != case['w2']:
             cover['different working units'] = cover.get('different working units', 0) + 1
-        diffs = compare(case, r, reply)
+        try:
+            diffs = compare(case, r, reply)
+        except Exception as e:  # noqa  (looking at the object read back runs the implementation's code)
+            diffs = [f'looking at what the implementation read back raised {type(e).__name__}: {e}']
         if diffs:
             ctx.disagree(f"{case['kind']}:{case['via']}", f"{case['kind']} via {case['via']} (write {case['w1']}, "
                          f"read {case['w2']}){gen2}: " + '; '.join(diffs[:3]),
-                         {'case': _root(case), 'line': line, 'diffs': diffs[:10]})
+                         {'case': _root(case), 'line': line if len(line) < 20000 else line[:2000] + ' ...', 'diffs': diffs[:10]})
     ctx.extra['unit_choices'] = cover
     ctx.extra['ec_crystal_system'] = dict(sorted(cover_ec.items()))
     ctx.extra['input_classes'] = dict(sorted(classes.items()))
@@ -2755,7 +2937,22 @@ def oracle_refusal(ctx, case, r):
 
 
 def oracle(ctx, case, r: RealRun):
-    """property clauses for one case. Returns True when everything held."""
+    """property clauses for one case; True when everything held.  Looking at what was read back (its natoms, property
+    table, symbols ...) runs code of the implementation: an exception there is an observation about the object that
+    was read, reported as such."""
+    try:
+        return _oracle(ctx, case, r)
+    except Exception as e:  # noqa
+        import traceback
+        where = traceback.extract_tb(e.__traceback__)[-1]
+        ctx.violate(f"{case['kind']}:{case.get('via')}:observation-raises",
+                    f"{case['kind']} via {case.get('via')} (write {case.get('w1')}, read {case.get('w2')}): looking at what was "
+                    f"read back raised {type(e).__name__}: {e} (at {where.name}: {where.line}); the object read back is "
+                    f"not a working {'Atoms / System' if case['kind'] in ('atoms', 'sys') else 'object'}", {'case': _root(case)})
+        return False
+
+
+def _oracle(ctx, case, r: RealRun):
     if case['kind'] == 'obj':
         return oracle_obj(ctx, case, r)
     if case['kind'] == 'refuse':
@@ -2774,6 +2971,8 @@ def oracle(ctx, case, r: RealRun):
         tag += f" [arguments as {case['argform']}]"
     if k == 'sys' and case.get('cont', 'list') != 'list':
         tag += f" [symbols / masses / pbc given as {case['cont']}]"
+    if 'compact' in case or 'compact' in case.get('second_of', {}):
+        tag += (f" [{case['natoms']} atoms]" if k != 'uc' else f" [value of shape {tuple(case['arr']['shape'])}]")
     if 'second_of' in case:
         tag += ' [second dump of the same object, after in-place edits ' + json.dumps(case['second_of']['again'])[:160] + ']'
     if k == 'ec' and case['cs'] not in EC_SYSTEMS and (r.write_error or '').startswith('ValueError: Invalid crystal_system'):
@@ -2913,9 +3112,16 @@ def oracle(ctx, case, r: RealRun):
                   {'name': 'pos', 'unit': None, 'dt': 'f', 'shape': [n, 3], 'data': [0.0] * (3 * n), 'default': True}]
         eprops += [dict(byname[e['name']], unit=e['unit']) for e in case['sel'] if e['name'] not in ('atype', 'pos')]
     names = [p['name'] for p in eprops]
-    if atoms.prop() != names:
-        ctx.violate(f'{k}:{via}:properties', f'{tag}: properties {atoms.prop()} read back, {names} written', rp)
+    if _pnames(atoms) != names:
+        ctx.violate(f'{k}:{via}:properties', f'{tag}: properties {_pnames(atoms)} read back, {names} written', rp)
         return False
+    hidden = _shadowed(atoms)
+    if hidden:
+        ctx.violate(f'{k}:{via}:object-attributes', f'{tag}: the Atoms object read back has instance attributes {hidden} '
+                    f'that hide the methods / attributes of the class of the same name (atoms.{hidden[0]} is now '
+                    f'{type(getattr(atoms, hidden[0], None)).__name__}): what is read back must be a working Atoms object '
+                    f'whose per-atom data are in its property table', rp)
+        ok = False
     for p in eprops:
         eu = None if p.get('default') else eff_unit(p['name'], p['unit'])
         if eu == 'scaled' and k == 'sys':
@@ -2944,14 +3150,17 @@ def search(ctx, broken):
     pending = [d.replay['case'] for d in ctx.disagreements if isinstance(d.replay, dict) and 'case' in d.replay]
     try:
         for case in pending:
+            case = _full(case)
             r = run_real(case)
             for c, rr in generations(case, r):
                 oracle(ctx, c, rr)
-        for case in FIXED_CASES + list(_cases(rng, N)):
+        bigs = _big_cases(random.Random(ctx.seed * 15485863 + 11), ctx.thorough or broken)
+        for case in FIXED_CASES + bigs + list(_cases(rng, N)):
+            case = _full(case)
             r = run_real(case)
             for c, rr in generations(case, r):
                 oracle(ctx, c, rr)
-            ctx.stats.case(f"oracle:{case['kind']}:{case['via']}", json.dumps(case, sort_keys=True, default=str),
+            ctx.stats.case(f"oracle:{case['kind']}:{case['via']}", json.dumps(_root(case), sort_keys=True, default=str),
                            nontrivial=_nontrivial(case))
     finally:
         restore_units()
@@ -2971,7 +3180,7 @@ def replay(ctx, payload):
         return
     try:
         for case in cases:
-            case = _root(case)
+            case = _full(_root(case))
             r = run_real(case)
             for c, rr in generations(case, r):
                 print('replay', json.dumps(_brief(c), default=str))
